@@ -688,9 +688,14 @@ def rule_model(facts, rep, tier="quick"):
                 ev = abseval.Evaluator(facts, "anstream", {}, inline_crates=("anstream", "anstyle_parse", "anstyle"))
                 ev.concrete_strings = True
                 fin = []
-                ev.call_fn("anstream", b["path"], [("rec", {"style": _style_value(*start), "printable": ("str", ""), "ready": ("none",)}),
+                pending = ("", "x", "  ", "\n")[n % 4]
+                ev.call_fn("anstream", b["path"], [("rec", {"style": _style_value(*start), "printable": ("str", pending), "ready": ("none",)}),
                                                    pv, ("array",), ("bool", False), ("int", ord("m"))], final=fin)
                 got = _style_read(fin[0][1]["style"])
+                # the run epilogue: the pending text is closed under the old style exactly when the style changes and there is text
+                want_ready = ("some", _style_value(*start)) if (got != start and pending != "") else ("none",)
+                if fin[0][1]["ready"] != want_ready or fin[0][1]["printable"] != ("str", pending):
+                    got = ("epilogue", str(fin[0][1]["ready"])[:60], fin[0][1]["printable"], "pending text", pending)
             except Unrecognised as ex:
                 got = ("not-evaluable", str(ex)[:80])
             want = sgr_model(groups, start, bit)
